@@ -9,7 +9,8 @@ import os
 
 from harness import graphgen
 from harness.fw import VERIF, Check, Driver
-from harness.graphsweep import NPROC, large_tasks, short_diff, sweep
+from harness import graphhist
+from harness.graphsweep import HISTORY_NOTE, NPROC, history_tasks, large_tasks, short_diff, sweep
 
 CMD = "rpo"
 EXE = "drv_C19"
@@ -72,11 +73,11 @@ def _brief(xs, k=12):
     return xs if len(xs) <= k else xs[:k] + ["… %d more" % (len(xs) - k)]
 
 
-def oracle(G, reply, num, rpo, desc=None):
+def oracle(G, reply, num, rpo, desc=None, case=None):
     """judges rooted graphs only (the property's domain).  desc = (family, n, seed) name of a large graph: the
     failing case then carries the name instead of thousands of edges"""
     n, entry = G[0], G[1]
-    case = {"large": desc} if desc else {"graph": graphgen.encode(G)}
+    case = case or ({"large": desc} if desc else {"graph": graphgen.encode(G)})
     if not graphgen.is_rooted(G):
         return []
     if num is None:
@@ -136,6 +137,42 @@ def evaluate(G, desc=None):
     return reply, fails, tags
 
 
+# ---------------------------------------------------------------- histories on one Graph object
+def canon_model_hist(reply: str) -> str:
+    f = reply.split("|")
+    return "|".join([f[0], f[2], f[3]]) if len(f) >= 4 else reply       # num | rpo | yield order (po is a left-over attribute)
+
+
+def hist_query(g, kind, case):
+    """compute_rpo on the current state of the graph, then read num / Graph.rpo / the post_order yield order"""
+    if kind != "compute_rpo":
+        return None
+    G, idx, dangling = graphhist.read_off(g)
+    try:
+        g.compute_rpo()
+        num = [x.num for x in g.nodes]
+        gone = [getattr(x, "name", "?") for x in g.rpo if x not in idx]
+        rpo = [idx[x] for x in g.rpo if x in idx]
+        order = [idx.get(x, -1) for x in g.post_order()]
+        reply = "ok %s|%s|%s" % (",".join(map(str, num)), ",".join(map(str, rpo)), ",".join(map(str, order)))
+        if gone:
+            reply += " +removed-nodes-in-rpo:" + ",".join(gone)
+        if dangling:
+            reply += " +dangling-edges:" + ",".join(dangling)
+    except RecursionError:
+        reply, num, rpo, gone = "recursion", None, None, []
+    fails = []
+    rooted = graphgen.is_rooted(G)
+    if rooted:
+        if gone:
+            fails.append(dict(case=case, what="Graph.rpo lists nodes that are no longer in the graph", key=None,
+                              expected="a permutation of the current nodes", observed=gone[:10]))
+        else:
+            fails = oracle(G, reply, num, rpo, case=case)
+    return {"request": CMD + " " + graphgen.encode(G), "real": reply, "fails": fails,
+            "tags": ["history_rooted_query"] if rooted else ["history_unrooted_query"]}
+
+
 # ---------------------------------------------------------------- corpus
 def corpus_graphs():
     d = os.path.join(VERIF, "corpus", "C19")
@@ -177,11 +214,14 @@ def run(ck: Check):
     tasks = [{"kind": "list", "graphs": corpus_graphs(), "module": MODULE}]
     tasks += exhaustive_tasks(4 if ck.quick else 5, 16 if ck.quick else 256)
     if ck.quick and esc:
-        # a modelled function changed: every 16th five-node digraph on top of the quick scope
-        tasks += [{"kind": "exh", "n": 5, "lo": lo, "hi": lo + (1 << 14), "module": MODULE} for lo in range(0, 1 << 25, 1 << 18)]
+        # a modelled function changed: every 64th five-node digraph on top of the quick scope
+        tasks += [{"kind": "exh", "n": 5, "lo": lo, "hi": lo + (1 << 14), "module": MODULE} for lo in range(0, 1 << 25, 1 << 20)]
     ltasks, limit = large_tasks(MODULE, esc or not ck.quick)
-    tasks = ltasks + tasks
-    nrand = 1600 if ck.quick and not esc else 40000
+    nhist = 480 if ck.quick and not esc else 2000 if ck.quick else 4000
+    tasks = ltasks + history_tasks(MODULE, "C19/%d" % ck.seed, nhist) + tasks
+    ck.notes.append(HISTORY_NOTE + "; %d histories; in a history num, Graph.rpo and the yield order are compared (po is an attribute "
+                    "left on the node objects)" % nhist)
+    nrand = 1600 if ck.quick and not esc else 8000 if ck.quick else 40000
     per = nrand // 16
     tasks += [{"kind": "random", "seed": "C19/%d/%d" % (ck.seed, i), "count": per, "max_n": 300, "module": MODULE}
               for i in range(16)]
@@ -200,9 +240,32 @@ def run(ck: Check):
     ck.notes.append("unrooted graphs are compared model-vs-code (num of unreachable nodes stays 0) but not judged: the property speaks of rooted graphs")
 
 
+def replay_history(c):
+    if "history" in c:
+        seed, index = c["history"]["seed"], int(c["history"]["index"])
+    else:
+        kv = dict(t.split("=") for t in c["request"].split(" ")[2:5])
+        seed, index = kv["seed"], int(kv["index"])
+    fam, G0, ops = graphhist.generate(seed, index)
+    print("start graph:", fam, graphgen.encode(G0)[:300])
+    import sys
+    rc = 0
+    for rec in graphhist.run(sys.modules[__name__], seed, index):
+        model = canon_model_hist(Driver(EXE).ask([rec["request"]])[0])
+        print("query %d after [%s]" % (rec["query"], "; ".join(graphhist.show_ops(ops[:rec["query"] + 1]))))
+        print("   current graph:", rec["request"][:200])
+        print("   real :", rec["real"][:200]); print("   model:", model[:200])
+        for f in rec["fails"]:
+            print("   oracle:", f["what"], "expected", f["expected"], "observed", f["observed"])
+            rc = 1
+    return rc
+
+
 def replay(ck: Check, rp):
     c = rp.get("case") or rp.get("first_divergence", {})
     print("replay", json.dumps(c))
+    if "history" in c or " history seed=" in c.get("request", ""):
+        return replay_history(c)
     desc = c.get("large")
     rq = c.get("request", "")
     if not desc and " large family=" in rq:
